@@ -499,3 +499,63 @@ CASES["C08"] = [
      '            for i in range(streamer.temporal_dim):\n                result.append(f"{name}_bound_{i}")\n            # temporal strides\n            result += [f"{name}_tstride_{i}" for i in range(len(streamer.temporal_dims))]\n            # options\n            if any(isinstance(opt, HasAddressRemap)', []),
     ("twin: value loop variable renamed", "twin", SNAXF, "        for operand, streamer in enumerate(self.streamer_config.data.streamers):\n            if any(isinstance(opt, TransposeExtension) for opt in streamer.opts):\n                # if we want", "        for idx, strm in enumerate(self.streamer_config.data.streamers):\n            if any(isinstance(o, TransposeExtension) for o in strm.opts):\n                # if we want", []),
 ]
+
+CSRPASS = "snaxc/transforms/convert_accfg_to_csr.py"
+ROCCF = "snaxc/accelerators/rocc.py"
+PHSACCF = "snaxc/accelerators/snax_phs.py"
+GEMMINIF = "snaxc/accelerators/gemmini.py"
+
+CASES["C04"] = [
+    ("gemmx: multiplier block starts n//4 behind the shifts", "mutant", GEMMX, '**{f"mult_{i}": addr_next + 6 + nb_shifts + i for i in range(nb_mults)},', '**{f"mult_{i}": addr_next + 6 + self.n // 4 + i for i in range(nb_mults)},', ["C04.injective"]),
+    ("streamer launch dict forgets the two reserved status registers", "mutant", SNAXF, "        # 1 busy register + 1 performance counter after launch field\n        base_addr += 2\n", "", ["C04.injective"]),
+    ("alu: barrier shares the launch register", "mutant", ALUF, '            {**streamer_launch, "launch_alu": addr_next + 2},\n            addr_next + 3,', '            {**streamer_launch, "launch_alu": addr_next + 2},\n            addr_next + 2,', ["C04.injective"]),
+    ("phs: loop bound placed on the last switch", "mutant", PHSACCF, "        base_addr += len(self.phs_switch_fields)\n        return base_addr, phs_switches", "        base_addr += len(self.phs_switch_fields) - 1\n        return base_addr, phs_switches", ["C04.injective"]),
+    ("xdma: multicast gap counted once", "mutant", XDMAF, "        updated_base_addr = base_addr + len(self.streamer_setup_fields) + 2 * self.max_multicast_dest - 2", "        updated_base_addr = base_addr + len(self.streamer_setup_fields) + self.max_multicast_dest - 2", ["C04.injective"]),
+    ("hwpe: two fields on one literal address", "mutant", HWPEF, '                "nr_iters": 0x3D5,', '                "nr_iters": 0x3D4,', ["C04.injective"]),
+    ("setup dict: every field on the base address", "mutant", SNAXF, "        streamer_setup = {key: base_addr + i for i, key in enumerate(self.streamer_setup_fields)}", "        streamer_setup = {key: base_addr for i, key in enumerate(self.streamer_setup_fields)}", ["C04.injective"]),
+    ("gemmx: bypassSIMD missing from the address dictionary", "mutant", GEMMX, '                "bypassSIMD": addr_next + 7 + nb_shifts + nb_mults,\n', "", ["C04.names"]),
+    ("gemmx: shift fields declared per lane, addressed per register", "mutant", GEMMX, '            *(f"shift_{i}" for i in range(ceil(self.n / 4))),', '            *(f"shift_{i}" for i in range(self.n)),', ["C04.names", "C08.tail-shape"]),
+    ("alu: launch field renamed in the dictionary only", "mutant", ALUF, '{**streamer_launch, "launch_alu": addr_next + 2},', '{**streamer_launch, "launch": addr_next + 2},', ["C04.names"]),
+    ("gemmini: rs2 entry with another funct7", "mutant", GEMMINIF, '        "k_LOOP_WS_CONFIG_ADDRS_AB.rs2": 10,', '        "k_LOOP_WS_CONFIG_ADDRS_AB.rs2": 11,', ["C04.rocc-table"]),
+    ("setup lowering: address of a fixed field", "mutant", SNAXF, "            addr = field_to_csr[field]\n", "            addr = next(iter(field_to_csr.values()))\n", ["C04.setup-lowering"]),
+    ("setup lowering: only index-typed values written", "mutant", SNAXF,
+     "            addr = field_to_csr[field]\n            ops.extend(\n                [\n                    addr_val := arith.ConstantOp(addr),\n                    llvm.InlineAsmOp(\n                        \"csrw $0, $1\",\n                        \"I, rK\",\n                        [addr_val, val],\n                        has_side_effects=True,\n                    ),\n                ]\n            )\n        return ops",
+     "            addr = field_to_csr[field]\n            if isinstance(val.owner, arith.IndexCastOp):\n                ops.extend(\n                    [\n                        addr_val := arith.ConstantOp(addr),\n                        llvm.InlineAsmOp(\n                            \"csrw $0, $1\",\n                            \"I, rK\",\n                            [addr_val, val],\n                            has_side_effects=True,\n                        ),\n                    ]\n                )\n        return ops", ["C04.setup-lowering"]),
+    ("setup lowering: operands exchanged", "mutant", SNAXF, '                        "I, rK",\n                        [addr_val, val],', '                        "I, rK",\n                        [val, addr_val],', ["C04.setup-lowering"]),
+    ("launch lowering: addresses from the setup table", "mutant", SNAXF, "        field_to_csr = dict(acc_op.launch_field_items())", "        field_to_csr = dict(acc_op.field_items())", ["C04.setup-lowering"]),
+    ("launch lowering: constant 1 instead of the launch value", "mutant", SNAXF, "                        [addr_val, launch_value],", "                        [addr_val, arith.ConstantOp(builtin.IntegerAttr(1, 5))],", ["C04.setup-lowering"]),
+    ("setup lowering: writes returned in reverse", "mutant", SNAXF, "                ]\n            )\n        return ops\n\n\nclass SNAXStreamer", "                ]\n            )\n        return ops[::-1]\n\n\nclass SNAXStreamer", ["C04.program-order"]),
+    ("gemmx launch: streamer launch value to the gemmx register", "mutant", GEMMX, '        ops.append(csr_op(addr_streamer.result, launch_values["launch_streamer"]))', '        ops.append(csr_op(addr_gemmx.result, launch_values["launch_streamer"]))', ["C04.setup-lowering"]),
+    ("barrier 3 polls a literal address", "mutant", SNAXF, "                    barrier := arith.ConstantOp(acc_op.barrier),\n                    zero := arith.ConstantOp(builtin.IntegerAttr(0, 32)),\n                    status := llvm.InlineAsmOp(\n                        \"csrr $0, $1\",\n                        # I = any 12 bit immediate\n                        # =r = store result in A 32- or 64-bit\n                        # general-purpose register (depending on the platform XLEN)\n                        \"=r, I\",\n                        [barrier],\n                        [i32],\n                        has_side_effects=True,\n                    ),\n                    # check if not equal to zero\n                    comparison := arith.CmpiOp(status, zero, \"ne\"),\n                    ConditionOp(comparison.results[0]),\n                ],\n                [\n                    YieldOp(),\n                ],\n            ),\n        ]\n\n\nclass SNAXPollingBarrier4",
+     "                    barrier := arith.ConstantOp(builtin.IntegerAttr(0x3CF, 12)),\n                    zero := arith.ConstantOp(builtin.IntegerAttr(0, 32)),\n                    status := llvm.InlineAsmOp(\n                        \"csrr $0, $1\",\n                        \"=r, I\",\n                        [barrier],\n                        [i32],\n                        has_side_effects=True,\n                    ),\n                    # check if not equal to zero\n                    comparison := arith.CmpiOp(status, zero, \"ne\"),\n                    ConditionOp(comparison.results[0]),\n                ],\n                [\n                    YieldOp(),\n                ],\n            ),\n        ]\n\n\nclass SNAXPollingBarrier4", ["C04.await"]),
+    ("barrier 4 writes to the setup registers", "mutant", SNAXF, "        for _, launch_addr in acc_op.launch_field_items():", "        for _, launch_addr in acc_op.field_items():", ["C04.await"]),
+    ("await pattern not registered", "mutant", CSRPASS, "                    LowerAccfgAwaitToCsr(op, ctx),\n", "", ["C04.exhaustive"]),
+    ("declarations erased in the lowering walker", "mutant", CSRPASS, "                    LowerAccfgAwaitToCsr(op, ctx),\n                ]", "                    LowerAccfgAwaitToCsr(op, ctx),\n                    RemoveAcceleratorOps(),\n                ]", ["C04.exhaustive"]),
+    ("launch lowered through the state type's accelerator of another op", "mutant", CSRPASS, "        acc_op, acc_info = self.get_acc(op.get_acc_name())\n        # acc_op, acc_info = self.get_acc(op.state.type.accelerator.data)", "        acc_op, acc_info = self.get_acc(next(iter(self.ctx.registered_accelerators)))", ["C04.exhaustive"]),
+    ("states: only operands stripped", "mutant", CSRPASS, "                result_types=[res.type for res in op.results if not isinstance(res.type, accfg.StateType)],", "                result_types=[res.type for res in op.results],", ["C04.state-erasure"]),
+    ("states: block arguments of the first region only", "mutant", CSRPASS, "        for region in op.regions:\n            for block in region.blocks:", "        for region in op.regions[:1]:\n            for block in region.blocks:", ["C04.state-erasure"]),
+    ("states: pattern typed to scf.for", "mutant", CSRPASS, "    def match_and_rewrite(self, op: Operation, rewriter: PatternRewriter, /):\n        \"\"\"\n        This  method", "    @op_type_rewrite_pattern\n    def match_and_rewrite(self, op: scf.ForOp, rewriter: PatternRewriter, /):\n        \"\"\"\n        This  method", ["C04.state-erasure"]),
+    ("states: erased results keep their old value", "mutant", CSRPASS, "(None if isinstance(res.type, accfg.StateType) else new_ops_results.pop(0))", "(new_ops_results.pop(0) if not isinstance(res.type, accfg.StateType) else res)", ["C04.state-erasure"]),
+    ("rocc: partner taken from the other key", "mutant", ROCCF, '                field_dict[instruction + ".rs1"] = prev_state[instruction + ".rs1"]', '                field_dict[instruction + ".rs1"] = prev_state[instruction + ".rs2"]', ["C04.rocc-pairs"]),
+    ("rocc: previous state overrides the op's own value", "mutant", ROCCF, '            if instruction + ".rs2" not in field_dict:\n                field_dict[instruction + ".rs2"] = prev_state[instruction + ".rs2"]\n    # For launch_ops', '            if instruction + ".rs2" in prev_state:\n                field_dict[instruction + ".rs2"] = prev_state[instruction + ".rs2"]\n    # For launch_ops', ["C04.rocc-pairs"]),
+    ("rocc: previous state never traced", "mutant", ROCCF, "        prev_state = infer_state_of(fields_op.in_state) if fields_op.in_state else {}", "        prev_state = {}", ["C04.rocc-pairs"]),
+    ("rocc: operands passed (rs2, rs1)", "mutant", ROCCF, "                    values[name][0],\n                    values[name][1],", "                    values[name][1],\n                    values[name][0],", ["C04.rocc-pairs"]),
+    ("rocc: defaults computed but the op is not rebuilt", "mutant", ROCCF, "                setup_op = accfg.SetupOp(new_values, new_params, setup_op.accelerator)", "                accfg.SetupOp(new_values, new_params, setup_op.accelerator)", ["C04.rocc-pairs"]),
+    ("rocc: memoised state overlaid in place", "mutant", ROCCF,
+     "def create_pairs(\n", "from functools import cache\n\n\n@cache\ndef known_state(state):\n    return infer_state_of(state)\n\n\ndef create_pairs(\n", []),
+    ("rocc: memoised state mutated", "mutant", ROCCF,
+     "        prev_state = infer_state_of(fields_op.in_state) if fields_op.in_state else {}\n        for instruction in instructions:",
+     "        prev_state = _known(fields_op.in_state) if fields_op.in_state else {}\n        prev_state.update({k: v for k, v in field_dict.items()})\n        for instruction in instructions:", ["C04.shared-state", "C04.rocc-pairs"]),
+    ("twin: gemmx shift count spelled (n + 3) // 4 in the dictionary", "twin", GEMMX, "        nb_shifts = ceil(self.n / 4)\n        nb_mults = self.n\n", "        nb_shifts = (self.n + 3) // 4\n        nb_mults = self.n\n", []),
+    ("twin: address dictionary built in another order", "twin", ALUF, '                **streamer_setup,\n                "alu_mode": addr_next + 0,\n                "loop_bound_alu": addr_next + 1,', '                "loop_bound_alu": addr_next + 1,\n                "alu_mode": addr_next + 0,\n                **streamer_setup,', []),
+    ("twin: setup lowering with renamed loop variables and a helper variable", "twin", SNAXF, "        for field, val in setup_op.iter_params():\n            if isinstance(val.type, builtin.IndexType):\n                val_to_i32 = arith.IndexCastOp(val, builtin.i32)\n                ops.append(val_to_i32)\n                val = val_to_i32.result\n            addr = field_to_csr[field]\n            ops.extend(\n                [\n                    addr_val := arith.ConstantOp(addr),\n                    llvm.InlineAsmOp(\n                        \"csrw $0, $1\",\n                        \"I, rK\",\n                        [addr_val, val],",
+     "        for name, value in setup_op.iter_params():\n            if isinstance(value.type, builtin.IndexType):\n                val_to_i32 = arith.IndexCastOp(value, builtin.i32)\n                ops.append(val_to_i32)\n                value = val_to_i32.result\n            csr = field_to_csr[name]\n            ops.extend(\n                [\n                    addr_val := arith.ConstantOp(csr),\n                    llvm.InlineAsmOp(\n                        \"csrw $0, $1\",\n                        \"I, rK\",\n                        [addr_val, value],", []),
+    ("twin: csrw template with exchanged operand numbers and operands", "twin", SNAXF, '                        "csrw $0, $1",\n                        "I, rK",\n                        [addr_val, val],', '                        "csrw $1, $0",\n                        "rK, I",\n                        [val, addr_val],', []),
+    ("twin: rocc partner state copied before use", "twin", ROCCF, "        prev_state = infer_state_of(fields_op.in_state) if fields_op.in_state else {}", "        prev_state = dict(infer_state_of(fields_op.in_state)) if fields_op.in_state else {}", []),
+]
+_ROCC_OLD = 'def create_pairs(\n    fields_op: accfg.LaunchOp | accfg.SetupOp,\n) -> dict[str, tuple[SSAValue, SSAValue]]:\n    """\n    For a given RoCC launch or setup op, return a map that maps a single RoCC\n    instruction to pairs of two SSAValues\n\n    For setup ops, this can retrace back previous setup state if necessary\n    (i.e. if one of the two operands of an instruction gets dedupped)\n    """\n    # Make a set of all the unique instruction names in the current operation\n    instructions = set([name[:-4] for name, _ in fields_op.iter_params()])\n    field_dict = dict(fields_op.iter_params())\n\n    # For setup_ops, get the previous setup state, if necessary\n    if isinstance(fields_op, accfg.SetupOp):\n        prev_state = infer_state_of(fields_op.in_state) if fields_op.in_state else {}\n'
+_ROCC_NEW = '@cache\ndef known_state(state):\n    return infer_state_of(state)\n\n\ndef create_pairs(\n    fields_op: accfg.LaunchOp | accfg.SetupOp,\n) -> dict[str, tuple[SSAValue, SSAValue]]:\n    instructions = set([name[:-4] for name, _ in fields_op.iter_params()])\n    field_dict = dict(fields_op.iter_params())\n\n    if isinstance(fields_op, accfg.SetupOp):\n        prev_state = known_state(fields_op.in_state) if fields_op.in_state else {}\n        prev_state.update(field_dict)\n        field_dict = prev_state\n'
+CASES["C04"] = [c for c in CASES["C04"] if not c[0].startswith("rocc: memoised state")]
+CASES["C04"].append(("rocc: memoised previous state overlaid in place", "mutant", ROCCF, "from snaxc.inference.trace_acc_state import infer_state_of\n", "from functools import cache\nfrom snaxc.inference.trace_acc_state import infer_state_of\n", []))
+CASES["C04"] = CASES["C04"][:-1]
+CASES["C04"].append(("rocc: memoised previous state overlaid in place", "mutant", ROCCF, _ROCC_OLD, "from functools import cache\n\n\n" + _ROCC_NEW, ["C04.shared-state"]))
